@@ -68,11 +68,12 @@ PayId(k) == CASE k = 1 -> "p1" [] k = 2 -> "p2" [] k = 3 -> "p3" [] k = 4 -> "p4
 (* late = <<id, n>>: endpoint id is built WITHOUT psk n, or <<"-", 0>> *)
 (* mm: the ONE context item on which the two parties disagree (C08), or "none":
      prologue  - the responder has another prologue
-     psk       - the responder holds another key for the lowest psk index
+     psk / psk_max - the responder holds another key for the lowest / highest psk index
      rs_i/rs_r - the initiator / responder was given another (valid) static key of the peer
      rs_i_bit / rs_r_bit - ... the peer's key with its top bit flipped *)
 sX == Atom("sX", 32)
 MinOf(S) == CHOOSE x \in S : \A y \in S : x <= y
+MaxOfS(S) == CHOOSE x \in S : \A y \in S : y <= x
 (* ow = <<id, n, "fix">>  : id is built with a WRONG key in slot n and later overwrites it with the right one
         <<id, n, "break">>: id is built right and later overwrites slot n with a wrong key               *)
 NoOw == <<"-", 0, "-">>
@@ -85,7 +86,9 @@ CfgFor0(id, role, pp, fixed, late, mm, ow) ==
                  ELSE Pub(IF role = "i" THEN sR ELSE sI))
            ELSE None,
     psk |-> [n \in 0..4 |-> IF n \in pp.psks /\ late # <<id, n>>
-                             THEN (IF (mm = "psk" /\ role = "r" /\ n = MinOf(pp.psks)) \/ ow = <<id, n, "fix">>
+                             THEN (IF (mm = "psk" /\ role = "r" /\ n = MinOf(pp.psks))
+                                      \/ (mm = "psk_max" /\ role = "r" /\ n = MaxOfS(pp.psks))
+                                      \/ ow = <<id, n, "fix">>
                                    THEN Atom("pskX", 32) ELSE PskAtom(n))
                              ELSE None],
     prologue |-> IF mm = "prologue" /\ role = "r" THEN Atom("prologue2", 0) ELSE Prologue,
@@ -118,6 +121,7 @@ Init ==
        \E ps \in PskSets(p) : \E late \in Lates(p, ps) : \E mm \in Mismatches : \E ow \in Ows(p, ps) : \E ex \in ExtraPsks : \E xr \in ExtraRs :
          /\ (ow # NoOw => late = <<"-", 0>> /\ mm = "none")
          /\ (mm = "psk" => ps # {})
+         /\ (mm = "psk_max" => Cardinality(ps) >= 2)
          /\ (mm \in {"rs_i", "rs_i_bit"} => NeedsRemoteStatic(p, "i"))
          /\ (mm \in {"rs_r", "rs_r_bit"} => NeedsRemoteStatic(p, "r"))
          /\ prm = [pp |-> PP(p, ps, pl, ip), prof |-> prof, variant |-> v, fixed |-> fx, late |-> late, bufs |-> bm,
